@@ -261,9 +261,12 @@ def le_post(ctx, st, result):
         ctx.oblige("post", "a-list-valued-option's-variable:a-JSON/YAML-list-is-its-items,anything-else(also unloadable text)-is-one-item-holding-the-text" + f"[{d['lst_kind']}]", len(ck) == 1 and ok and d["store"].get("lst") == ("checked", "lst"))
     if sub_ok:
         se = [e for e in ctx.events if e[0] == "sub.parse_env"]
-        ctx.oblige("post", "the-selected-subcommand's-own-environment-is-read-by-its-parser(same mapping, same defaults flag, unvalidated)-and-merged-under-the-subcommand's-name",
+        # what this function returns is "the environment": the sub-parser's *defaults* are not part of it (they are completed by handle_subcommands,
+        # below everything given) - read with defaults=True they overwrote what the environment config or a default config file had given
+        # for the subcommand (C17 known finding c17-env-named-subcommand-loses-default-config-settings; fixed)
+        ctx.oblige("post", "the-selected-subcommand's-own-environment-is-read-by-its-parser(same mapping,environment values only: without the sub-parser's defaults,unvalidated)-and-merged-under-the-subcommand's-name",
                    "fit.x" in d["store"] and d["store"]["fit.x"] is d["sub_ns"].attrs["vars"]["x"] and d["store"].get("subcommand") == "fit" and len(se) == 1
-                   and se[0][1].get("env") is d["env_rec"] and se[0][1].get("defaults") is d["defaults"] and se[0][1].get("_skip_validation") is True)
+                   and se[0][1].get("env") is d["env_rec"] and se[0][1].get("defaults") is False and se[0][1].get("_skip_validation") is True)
     elif P["APP_SUBCOMMAND"]:
         ctx.oblige("post", "a-subcommand-variable-that-names-no-subcommand-selects-nothing", "subcommand" not in d["store"] and not [e for e in ctx.events if e[0] == "sub.parse_env"])
     aa = [e for e in ctx.events if e[0] == "apply_actions"]
